@@ -34,6 +34,7 @@ type Meta struct {
 	QuickTimeoutS    int `json:"quick_timeout_s"`
 	ThoroughTimeoutS int `json:"thorough_timeout_s"`
 	CHelper     bool     `json:"c_helper"`
+	MemLimitMB  int      `json:"mem_limit_mb"` // address-space limit of each worker: exhaustion is then a Go fatal error, reported with the persisted case
 }
 
 type KnownFinding struct {
@@ -248,6 +249,9 @@ func main() {
 	)
 	if scale != "" {
 		commonEnv = append(commonEnv, "VERIF_SCALE="+scale)
+	}
+	if meta.MemLimitMB > 0 {
+		commonEnv = append(commonEnv, "VERIF_MEMLIMIT_MB="+strconv.Itoa(meta.MemLimitMB))
 	}
 	if onlySub != "" {
 		commonEnv = append(commonEnv, "VERIF_SUB="+onlySub)
